@@ -199,10 +199,8 @@ func garbageCBC(l *lagg, s, salt []byte) (ev, nt int64) {
 			l.report("Decrypt|panic|"+cls, rank, "Decrypt panicked at "+common.PanicSite(st), map[string]any{"case": c, "stack": st}, "")
 		case !ok:
 			l.report("Decrypt|no-error|"+cls, rank, fmt.Sprintf("Decrypt returned %s and no error; an OpenSSL-style reader rejects this message (bad base64, length, magic or padding)", hx(got)), c, "")
-		case err != nil:
-			l.report("Decrypt|error-on-openssl-valid|"+cls, rank, fmt.Sprintf("Decrypt returned %v; the message is a well-formed OpenSSL message for %s", err, hx(want)), c, "")
 		default:
-			l.report("Decrypt|wrong-plaintext|"+cls, rank, fmt.Sprintf("Decrypt returned %s, an OpenSSL-style reader gives %s", hx(got), hx(want)), c, "")
+			l.report("Decrypt|differs-from-openssl-reader|"+cls, rank, fmt.Sprintf("Decrypt returned %s, %v; the message is still a well-formed OpenSSL message for %s", hx(got), err, hx(want)), c, "")
 		}
 	}
 	seenRaw := map[string]struct{}{}
